@@ -296,9 +296,10 @@ def tree_tie(ctx, cases):
 
 # ---------------------------------------------------------------- run
 def run(ctx):
-    ok = ctx.build(['props/C04.vo', 'run/MarkupRun.vo', 'run/TextRun.vo'])
+    ok = ctx.build(['props/C04.vo', 'props/C04Wrap.vo', 'run/MarkupRun.vo', 'run/TextRun.vo'])
     if ok:
         ctx.obligations('props/C04.v')
+        ctx.obligations('props/C04Wrap.v')
     model = ctx.model('markup') if ok else None
     ctx.cov['rule'] = (
         'payloads generated from the whole ASCII punctuation + white space + unicode (incl. U+2028, U+0085, form feed), escaped so '
